@@ -94,8 +94,11 @@ func randomOp(r *gen.Rng, w, h int) string {
 		return "c0 13"
 	case k < 50:
 		return fmt.Sprintf("c0 %d", gen.Pick(r, []int{10, 10, 11, 12}))
-	case k < 56:
+	case k < 55:
 		return "esc " + hx.Hex(gen.Pick(r, []string{"D", "E", "M", "7", "8"}))
+	case k < 56:
+		// round 3: OSC 8 hyperlinks (open with / without parameters, close)
+		return "osc " + hx.Hex(gen.Pick(r, []string{"8;;http://a", "8;id=1;http://b", "8;;", "8;id=2;", "8;;x;y"})) + " 0"
 	case k < 58:
 		return emuh.Csi(gen.Pick(r, []string{"?h", "?l"}), "1049")
 	case k < 64:
